@@ -1244,9 +1244,18 @@ fn dedup_case() -> impl Strategy<Value = DedupCase> {
 pub fn check() -> Option<Check> {
     // fault assignments with few silent servers (so that the liveness clause is exercised) and a
     // second stream with many (deadline clause)
-    let faults = prop("fault_assignments", 300_000, 6_000_000, |_t: Tier| pool_case(1), run_faults);
-    let slow = prop("silent_servers_deadline", 150_000, 3_000_000, |_t: Tier| pool_case(8), run_faults);
-    let dedup = prop("deduplication", 150_000, 3_000_000, |_t: Tier| dedup_case(), run_dedup);
+    let faults = prop("fault_assignments", 300_000, 6_000_000, |_t: Tier| pool_case(1), |c: &PoolCase, rec: &mut Rec| {
+        let _det = crate::detrand::DetRand::start(crate::core::det_seed(c));
+        run_faults(c, rec)
+    });
+    let slow = prop("silent_servers_deadline", 150_000, 3_000_000, |_t: Tier| pool_case(8), |c: &PoolCase, rec: &mut Rec| {
+        let _det = crate::detrand::DetRand::start(crate::core::det_seed(c));
+        run_faults(c, rec)
+    });
+    let dedup = prop("deduplication", 150_000, 3_000_000, |_t: Tier| dedup_case(), |c: &DedupCase, rec: &mut Rec| {
+        let _det = crate::detrand::DetRand::start(crate::core::det_seed(c));
+        run_dedup(c, rec)
+    });
     Some(Check {
         id: "C18",
         level: "exploration",
